@@ -4,7 +4,8 @@ the check of the seeded property (quick tier), undo the patch, and record whethe
 usage: reseed.py [name ...]   (default: all);   writes seeded/REGRESSION.json;   restores evidence afterwards"""
 import json, os, subprocess, sys, time
 
-V = '/verif'
+V = os.path.dirname(os.path.dirname(os.path.abspath(__file__)))
+REPO = os.environ.get('VERIF_REPO', '/repo')   # a scratch worktree when the regression must not touch /repo
 
 def sh(cmd, cwd=None, timeout=3000):
     r = subprocess.run(cmd, shell=True, cwd=cwd, capture_output=True, text=True, timeout=timeout)
@@ -12,16 +13,16 @@ def sh(cmd, cwd=None, timeout=3000):
 
 def main():
     names = sys.argv[1:] or sorted(d for d in os.listdir(f'{V}/seeded') if os.path.isfile(f'{V}/seeded/{d}/patch.diff'))
-    rc, out = sh('git -C /repo status --porcelain -- src include test')
+    rc, out = sh(f'git -C {REPO} status --porcelain -- src include test')
     if out.strip():
-        print('refusing: /repo has local changes'); return 2
+        print(f'refusing: {REPO} has local changes'); return 2
     res, props = {}, set()
     for nm in names:
         meta = json.load(open(f'{V}/seeded/{nm}/meta.json')) if os.path.exists(f'{V}/seeded/{nm}/meta.json') else {}
         pid = meta.get('property') or nm[:3]
         props.add(pid)
         patch = f'{V}/seeded/{nm}/patch.diff'
-        rc, out = sh(f'git -C /repo apply {patch}')
+        rc, out = sh(f'git -C {REPO} apply {patch}')
         if rc != 0:
             res[nm] = {'property': pid, 'applied': False, 'detail': out[-300:]}
             continue
@@ -29,7 +30,7 @@ def main():
         try:
             rc, out = sh(f'python3 check/run.py {pid} --tier quick', cwd=V)
         finally:
-            sh('git -C /repo checkout -- .')
+            sh(f'git -C {REPO} checkout -- .')
         viol = [l for l in out.splitlines() if l.startswith('VIOLATION')]
         res[nm] = {'property': pid, 'applied': True, 'rc': rc, 'detected': rc == 1 and bool(viol),
                    'with_failing_input': bool(viol) and 'no-failing-input-found' not in viol[0],
